@@ -26,7 +26,7 @@ pub struct Choice {
 }
 
 pub fn strategy() -> BoxedStrategy<Choice> {
-  let stmt = (0u8..13, 0u8..8, 0u8..8);
+  let stmt = (0u8..16, 0u8..8, 0u8..8);
   let file = (prop::collection::vec(stmt, 0..8), 0u8..8);
   (
     prop::collection::vec(file, 1..12),
@@ -61,7 +61,12 @@ fn js_stmt(k: u8, a: u8, b: u8) -> String {
     // suppression comments: used ones and unused ones (a project scan proposes to delete those)
     10 => "// ast-grep-ignore".to_string(),
     11 => "// ast-grep-ignore: zz-none".to_string(),
-    _ => format!("foo({x}); // ast-grep-ignore"),
+    12 => format!("foo({x}); // ast-grep-ignore"),
+    // fixes whose ranges touch: `a,` `a,` (expandEnd swallows the comma, no blank in between) and
+    // two statements on one line that are both deleted
+    13 => "bar(a,a,b);".to_string(),
+    14 => format!("baz({x});baz({y});"),
+    _ => "foo(a,a,a);bar(a,a);".to_string(),
   }
 }
 
